@@ -21,7 +21,7 @@ RULE = (
     "landmark edges sharing an offset id with different offsets). Oracle: round trip equality of counts, order, ids, pose types, bit-identical "
     "numbers (SE2 angles: congruent within 8*eps*(|theta|+pi); SE3 measurement quaternions: +-q/|q|), parameters, chi2; files stable from the "
     "second cycle; non-expressible content must make to_g2o raise - a file that is written must load and compare equal. Non-trivial = a landmark "
-    "edge with offset, a w<0 quaternion, a number outside [1e-6,1e6], or >= 2 cycles."
+    "edge with offset, a w<0 quaternion, a number outside [1e-6,1e6], or >= 2 cycles. Also: integer-dtype information with entries in the upper half of the dtype range; with probability 0.2% an SE2 graph of 16384..32769 edges through one cycle."
 )
 BUDGET = {"quick": 16 * 1500, "thorough": 16 * 8000}
 TOLERANCES = {
